@@ -355,15 +355,30 @@ func (g *Gen) try(k string) (Op, bool) {
 			n := g.wtmax / 4096 * 4096
 			o = Op{Proc: "write", H: f.sym, Off: (f.size + 4095) / 4096 * 4096, Cnt: n, Stable: 2, Data: DataSpec{Pat: true, Len: n, Seed: uint64(g.rng.Intn(250))}}
 			g.pend = &pending{target: f}
+			if f.size+n < 600*4096 && len(g.queue) == 0 {
+				off2 := (f.size+4095)/4096*4096 + n
+				g.enq(&pending{target: f}, Op{Proc: "write", H: f.sym, Off: off2, Cnt: n, Stable: 2, Data: DataSpec{Pat: true, Len: n, Seed: uint64(g.rng.Intn(250))}})
+			}
 			break
 		}
 		nsz := uint64(g.rng.Intn(12)) * 4096
-		if g.rng.Intn(3) == 0 {
-			nsz += uint64(g.rng.Intn(4096))
+		if g.rng.Intn(2) == 0 {
+			nsz += uint64(1 + g.rng.Intn(4095))
 		}
 		o = Op{Proc: "setattr", H: f.sym, HasSize: true, Size: nsz}
 		g.pend = &pending{target: f}
-		switch g.rng.Intn(6) {
+		switch g.rng.Intn(9) {
+		case 6, 7, 8:
+			// a write that starts inside the shortened file and ends beyond its last block, while the blocks above
+			// are still being freed; then the file grows again: what comes back must be zeros
+			if nsz >= 200 {
+				k := uint64(300 + 4096*g.rng.Intn(3)) // ends in the last block, or one or two blocks beyond it
+				g.enq(&pending{target: f}, Op{Proc: "write", H: f.sym, Off: nsz - 100, Cnt: k, Stable: 2, Data: DataSpec{Pat: true, Len: k, Seed: 9}})
+			} else {
+				g.enq(&pending{target: f}, Op{Proc: "write", H: f.sym, Off: 0, Cnt: 5000, Stable: 2, Data: DataSpec{Pat: true, Len: 5000, Seed: 9}})
+			}
+			g.enq(&pending{target: f}, Op{Proc: "setattr", H: f.sym, HasSize: true, Size: nsz + 9*4096})
+			g.enq(nil, Op{Proc: "read", H: f.sym, Off: 0, Cnt: nsz + 10*4096})
 		case 0, 1:
 			g.enq(&pending{parent: f.parent, target: f}, Op{Proc: "remove", H: f.parent.sym, Name: f.name})
 		case 2:
